@@ -306,6 +306,12 @@ def materialise_seq(I, v, ty):
         ety = ctx.resolve_ty(ty.elems[k] if isinstance(ty, TTuple) and k < len(ty.elems) else getattr(ty, "elem", None))
         if isinstance(x, (VList, VTuple)) and isinstance(ety, (TSeq, TTuple)) and (not isinstance(ety, TTuple) or len(ety.elems) == len(x.items)):
             x = materialise_seq(I, x, ety)        # nested displays (a tuple of pairs) become nested heap sequences
+        elif ety is not None and not isinstance(ety, TAny):
+            # shapes are ASSUMED when an item is loaded from a heap sequence, so they are PROVED when one is built
+            if isinstance(x, (VSet, VDict, VList, VTuple)):
+                ctx.oblige("seqtype[item %d is a %s, the sequence holds %s]" % (k, type(x).__name__[1:].lower(), ety.describe()), z3.BoolVal(False), kind="type")
+            else:
+                ctx.oblige("seqtype[item %d has the shape the sequence holds: %s]" % (k, ety.describe()), ety.inv(ctx.to_val(x).t, goal=True), kind="type")
         arr = z3.Store(arr, z3.IntVal(k), ctx.to_val(x).t)
     ctx.store_raw(idt, "$len", z3.IntVal(len(v.items)))
     ctx.store_raw(idt, "$item", arr)
@@ -429,8 +435,22 @@ def store_subscript(I, obj, idx, v):
         if getattr(obj, "sym", None) is not None:
             return map_set(I, obj.sym, idx, v)
         try:
-            obj.items[I.hashable(idx)] = v
+            hk = I.hashable(idx)
+            if any(isinstance(k, SymKey) for k in obj.items):
+                raise Unsupported("symbolic keys present")
+            obj.items[hk] = v
         except Unsupported:
+            key = ctx.from_val(idx) if isinstance(idx, SV) else idx
+            if isinstance(key, VTuple) and all((isinstance(x, SV) and isinstance(x.ty, (TNum, TStr, TBool, TNone))) or isinstance(x, (int, float, str, bool, type(None))) for x in key.items):
+                # a tuple key with symbolic leaves: equal to a key already present (then that entry is overwritten) or a new entry -
+                # decided per path
+                for k in list(obj.items):
+                    eq = I.equal(unkey(k), key)
+                    if eq is True or (eq is not False and ctx.branch(eq, "dict-key-equal")):
+                        obj.items[k] = v
+                        return
+                obj.items[SymKey(key)] = v
+                return
             if obj.items:
                 raise
             # an empty dict display that receives a symbolic key becomes a heap map (no key present yet)
@@ -1260,8 +1280,10 @@ def call_method(I, obj, name, args, kwargs):
                 return args[1]
             raise PyRaise(I.make_exception(ExternalRef("KeyError"), [args[0]]))
         if name == "items":
-            return ConcreteIter([VTuple([k, v]) for k, v in obj.items.items()])
+            return ConcreteIter([VTuple([unkey(k), v]) for k, v in obj.items.items()])
         if name == "keys":
+            if any(isinstance(k, SymKey) for k in obj.items):
+                raise Unsupported("keys() of a dict with symbolic keys")
             return VSet(list(obj.items.keys()))
         if name == "values":
             return ConcreteIter(list(obj.items.values()))
